@@ -9,23 +9,23 @@ ROOT = os.path.dirname(os.path.dirname(os.path.abspath(__file__)))
 SCHED_NOTE = "Trusted: Coq kernel; hand-written LTS transcription of Schedule/checkStatus/isDone/stage goroutine (atomic Visit justified by the proved stability of satisfied statuses); Go engine sched (controlled Runner, quiescence oracle is a wait hint only), python driver; sync/atomic sequential consistency. No axioms."
 CHECKS = {
  "C01": ("Coq proof: record invariant over a labelled transition system of the scheduler, for all configurations and all event interleavings; observed runs of the real Scheduler under a checker-controlled Runner are accepted by the LTS inside Coq (accepts_sound) and monitored",
-         "C01_deps_finished_before_start holds for every configuration (any size, any graph) and every interleaving of visits, completions, cancels and exits (induction over event lists). The LTS is tied to scheduler.go by replaying every observed run (every DAG on <=4 stages, random to 8, all completion orders of stages in flight together up to a cap) through `accepts` in Coq.",
+         "C01_deps_finished_before_start holds for every configuration (any size, any graph) and every interleaving of visits, completions, cancels and exits (induction over event lists). The LTS is tied to scheduler.go by replaying every observed run (every DAG on <=4 stages, random to 8, all completion orders of stages in flight together up to a cap) through `accepts` in Coq; nested and twice-included pipelines through the binary.",
          SCHED_NOTE, "DESIGN.md section 6.0, C01", "sched"),
  "C02": ("Coq proof: statuses are unresolved or equal a declarative Final relation (invariant), Final is functional on acyclic graphs => confluence; error flag invariant; cancellation characterised by blocking paths; correspondence as C01 plus cross-order comparison",
-         "C02_timing_independent / C02_final_at_return / C02_cancel_exactly_dependants / C02_error_reported for all acyclic configurations, outcome assignments and interleavings. Tied to the code by the same accepted runs, the fixed-point monitor on observed final statuses and comparison of all explored completion orders of one configuration.",
+         "C02_timing_independent / C02_final_at_return / C02_cancel_exactly_dependants / C02_error_reported for all acyclic configurations, outcome assignments and interleavings. Tied to the code by the same accepted runs, the fixed-point monitor on observed final statuses and comparison of all explored completion orders of one configuration; random pipelines BUILT FROM CONFIGURATION FILES (task and included-pipeline stages, allow_failure, false conditions) run by the binary and judged against `final` in Coq. C02_error_reported holds without hypothesis on the conditions (repair F18).",
          SCHED_NOTE, "DESIGN.md section 6 C02", "sched"),
  "C03": ("Coq proof: invariants (no double start, settled on return, eligible ran exactly once) and a progress theorem (one full polling pass strictly shrinks the Waiting set on acyclic well-formed graphs) over the scheduler LTS; correspondence as C01 plus injected Cancel / condition errors",
          "Safety parts hold for all executions; termination is proved as C03_terminates_within_rounds (on an acyclic configuration without dangling dependencies at most |c| fair rounds exhaust the Waiting stages and the exit is enabled) plus the enabledness lemmas; the wall-clock return is observed by the harness (Schedule must return within a bound in every explored run, cancelled runs included).",
          SCHED_NOTE + " Fairness of the Go scheduler and termination of commands are hypotheses of the progress argument.", "DESIGN.md section 6 C03", "sched"),
  "C04": ("Coq proof: eligibility is stable under every event, so any stretch of the run containing a stage's visit starts it (C04_eligible_gets_started, C04_in_flight_together); observed in-flight sets at every quiescent point are compared with the model's eligible closure in Coq",
-         "For all configurations and interleavings: an eligible stage is started by the next pass whatever else happens, and a pass without completions puts all eligible stages in flight together. Tied to the code by checking, at every quiescent point of every explored run, that no eligible stage is unstarted (the controlled Runner releases nobody meanwhile = the rendezvous pipeline).",
+         "For all configurations and interleavings: an eligible stage is started by the next pass whatever else happens, and a pass without completions puts all eligible stages in flight together. Tied to the code by checking, at every quiescent point of every explored run, that no eligible stage is unstarted (the controlled Runner releases nobody meanwhile = the rendezvous pipeline); through the binary with the REAL task runner two independent stages wait for each other's mark (contexts with hooks, interactive tasks, prefixed output, a shared task...).",
          SCHED_NOTE, "DESIGN.md section 6 C04", "sched"),
  "C05": ("Coq proof (DFS soundness/completeness + incremental acyclicity invariant) over a hand-written model of graph.go; differential correspondence vs scheduler.NewExecutionGraph and the config loader, evaluated in Coq by vm_compute",
          "Theorems C05_reject_iff_cyclic / C05_accept_iff_acyclic / C05_exposes_edges hold for every stage list of any size and order (unbounded, by induction); the model is tied to the Go code by running both on every edge set on <=3 stages in every declaration order (exhaustive), every edge set on 4 stages (thorough) and random graphs up to 10 stages.",
          "Trusted: Coq kernel; the hand-written transcription of addEdge/cycleDfs (edge list == from/to maps); the Go engines graph/loadcfg and the python driver. No axioms.",
          "DESIGN.md section 6 C05", "graph"),
  "C06": ("Coq proof: closed forms of the executed-command trace of a model of TaskRunner.Run (refinement of the recursive run to declarative first-failure specifications); differential correspondence against the real TaskRunner running real shell commands",
-         "C06_stops_at_first_failure / C06_runs_everything / C06_failing_before_prevents_commands / C06_condition_false_skips for every task (any number of commands, variations, hooks, any exit status). Tied to runner.go/compiler.go by running the statement's grammar exhaustively for small shapes plus random larger tasks through the real runner and comparing traces in Coq.",
+         "C06_stops_at_first_failure / C06_runs_everything / C06_failing_before_prevents_commands / C06_condition_false_skips for every task (any number of commands, variations, hooks, any exit status). Tied to runner.go/compiler.go by running the statement's grammar exhaustively for small shapes plus random larger tasks through the real runner and comparing traces in Coq; commands, hooks and conditions print on both streams; the same task run twice; tasks WRITTEN IN A CONFIGURATION FILE run by the binary directly, via `run task`, as a stage (with overrides, with the stage allowing failure) and nested.",
          "Trusted: Coq kernel; transcription of Run/before/execute/after/CompileTask with commands abstracted to (result, stdout); the fixed shape of generated shell commands; mvdan/sh and text/template; Go engine taskrun, python driver. No axioms.",
          "DESIGN.md section 6.1, C06", "taskrun"),
  "C07": ("Coq proof: error-iff-failed and exit-code theorems on the TaskRun model, prefix/exit-status laws of the CLI target loop model; differential correspondence: every exit status 0..255 through the real TaskRunner, target sequences through the real binary",
@@ -37,11 +37,11 @@ CHECKS = {
          "Trusted: Coq kernel; store/micro-step transcription of runStage (private copy); containers as association lists compared extensionally; Go engine stageov, python driver. No axioms.",
          "DESIGN.md section 6 C08", "stageov"),
  "C09": ("Coq proof: precedence law of the job/process environment over seven layers and of the working directory (first defined wins, any names and values) on a model of Run/CompileTask/runStage/Execute; differential correspondence through the real binary with a controlled parent environment",
-         "C09_precedence / C09_passthrough / C09_task_name / C09_dir for all layer contents. Tied to the code by all 63 subsets of the six definable levels x two value orders x direct/stage, and all subsets of the dir levels from two start directories, through the built binary.",
+         "C09_precedence / C09_passthrough / C09_task_name / C09_dir / C09_hooks_and_condition for all layer contents; C09_env_file_verbatim (+ last line wins, other lines define nothing, CRLF, unterminated last line) for the env_file read from its text (Model/EnvFile.v). Tied to the code by all 63 subsets of the six definable levels x two value orders x direct/stage, read by the command, the condition and the hooks; all subsets of the dir levels (absolute and relative) from two start directories; generated env-file texts; through the built binary.",
          "Trusted: Coq kernel; association-list transcription of the environment-building expressions; mvdan/sh ListEnviron (after the repair no name reaches it twice); python driver + binary. No axioms.",
          "DESIGN.md section 6 C09", "cli"),
  "C10": ("Coq proof: precedence law for template variables, argv split law (first `--`), and render-failure-before-execution on the TaskRun model; differential correspondence through the real binary",
-         "C10_precedence / C10_builtins / C10_args_split / C10_undefined_variable_fails_before_executing for all layer contents and all argument vectors. Tied to the code by all subsets of the five variable levels, argv vectors over the statement's alphabet, an undefined variable at every command position, through the built binary.",
+         "C10_precedence / C10_builtins / C10_args_split / C10_undefined_variable_fails_before_executing for all layer contents and all argument vectors; C10_set_flag_splits_at_first_equals (complete characterisation of the --set text handling, Model/SetFlag.v), C10_last_set_wins. Tied to the code by all subsets of the five variable levels, argv vectors over the statement's alphabet, an undefined variable at every command position, --set texts of every shape, variables read in condition / hooks / commands, through the built binary.",
          "Trusted: Coq kernel; transcription of Config.merge/--set/buildTaskRunner/Run/runStage variable merging and of taskArgs and the target loops; text/template missingkey=error restricted to {{.name}}; urfave/cli; python driver + binary. No axioms.",
          "DESIGN.md section 6 C10", "cli"),
  "C11": ("Coq proof: captured output = concatenation of the executed jobs' stdout (closed form of the TaskRun model), .Output chaining law of execute's loop, character-wise characterisation of the exported name, and - composed with the scheduler LTS and C01 - in every execution a starting stage finds each completed dependency's output in the runner environment; observed captures, environment dumps and rendered .Output values of the real TaskRunner/Scheduler judged in Coq",
@@ -49,15 +49,15 @@ CHECKS = {
          "Trusted: Coq kernel; transcription of execute / storeTaskOutput / Run's env merge; commands abstracted to the chunks they write; generated command shapes, coreutils env/od; Go engine taskrun, python driver. Kernel limits on environment size are outside the model (outputs <= 64 KiB). No axioms.",
          "DESIGN.md section 6 C11", "taskrun"),
  "C12": ("Coq proof (partial): safety and deadlock-freedom invariants and a decreasing measure over an LTS of any number of Run and Cancel threads interleaved arbitrarily (no panic, waiting Cancel never stuck, executions bounded, nothing starts after the flag, success means every command ran); the real TaskRunner/Scheduler in a child process per scripted scenario is monitored in Coq",
-         "PARTIAL: the hand-shake logic is proved for all thread counts and interleavings; that signals really end commands, the 2 s kill grace and wall-clock bounds are observed by the harness only (0..4 tasks in flight x 0..3 waiting, Cancel before/during/between/after/twice/from a stage condition error).",
+         "PARTIAL: the hand-shake logic is proved for all thread counts and interleavings; that signals really end commands, the 2 s kill grace and wall-clock bounds are observed by the harness only (0..4 tasks in flight x 0..3 waiting, Cancel before/during/between/after/twice/again after refused runs/from a stage condition error, also inside nested pipelines through the binary; a command that survives the interruption).",
          "Trusted: Coq kernel; LTS transcription of Run's in-flight accounting and Cancel (mutex+cond as atomic steps); environment rule 'a command in progress when the context is cancelled ends'; sync/context primitives; Go engine taskrun (child process), python driver. No axioms.",
          "DESIGN.md section 6 C12", "taskrun-child"),
  "C13": ("Coq proof (partial): decision logic of timeouts on the TaskRun model (a job ends as a non-exit error iff longer than the timeout; an overrun fails the task also with allow_failure and nothing later starts; overrunning after hooks are cut short; within-timeout tasks behave as untimed ones; per-job timer); real timeouts against real overrunning commands measured by the harness and judged in Coq",
-         "PARTIAL: C13_overrun_fails / C13_after_cut_short / C13_within_unaffected / C13_full_timeout_each / C13_expires_iff_longer hold for all tasks, timeouts and durations. That expiry terminates the process shortly afterwards is observed only: timeouts 100 ms..1 s x {sleep, busy loop, SIGINT-ignoring child} x every position of 1..3 commands x hooks/condition x allow_failure against timeout + 2 s grace + slack.",
+         "PARTIAL: C13_overrun_fails / C13_after_cut_short / C13_within_unaffected / C13_full_timeout_each / C13_expires_iff_longer hold for all tasks, timeouts and durations. That expiry terminates the process shortly afterwards is observed only: timeouts 100 ms..1 s x {sleep, busy loop, SIGINT-ignoring child} x every position of 1..3 commands x hooks/condition x allow_failure against timeout + 2 s grace + slack; through the binary the timeout as written in a configuration file (string and number forms; direct, stage, overrides, nested) and that no process of an overrunning command outlives taskctl.",
          "Trusted: Coq kernel; TaskRun transcription; 'a cancelled/expired context makes the command end with a non-exit-status error' (mvdan/sh); real-time measurement with one retry in isolation; Go engine taskrun (child), python driver. No axioms.",
          "DESIGN.md section 6 C13", "taskrun-child"),
  "C14": ("Coq proof: counting and ordering invariants over an LTS of n task runs over k contexts with sync.Once start-up, for all interleavings (up once and first, before/after once each per run, down once per used context after everything, nothing after Finish); observed traces of the real TaskRunner (simultaneous, sequential, through the scheduler) and of the binary judged in Coq",
-         "C14_no_hook_twice / C14_up_exactly_once / C14_order / C14_up_fails / C14_before_and_after_once_each / C14_down_once_for_used_contexts / C14_second_finish_runs_nothing for all run/context assignments and schedules. Tied to the code by 1..8 runs over 1..3 contexts, all task shapes, failing up/before, through taskrun engine and CLI.",
+         "C14_no_hook_twice / C14_up_exactly_once / C14_order / C14_up_fails / C14_before_and_after_once_each / C14_down_once_for_used_contexts / C14_second_finish_runs_nothing for all run/context assignments and schedules. Tied to the code by 1..8 runs over 1..3 contexts, all task shapes, failing up/before/down, through taskrun engine and CLI.",
          "Trusted: Coq kernel; LTS transcription of Run/contextForTask/Finish and ExecutionContext hooks; sync.Once as 'first arriver runs, others wait'; Go engine taskrun, python driver + binary. No axioms.",
          "DESIGN.md section 6 C14", "taskrun+cli"),
  "C15": ("Coq proof (partial): totality - no input reaches Panic - of the import traversal (every file system, every mis-shapen import field) and of the builders over every definition with possibly-nil bodies and every env file, plus termination of the traversal; the real binary explored with grammar-generated and mutated documents in three formats, YAML specials, env-file shapes, under list/show/graph/validate with crash and time-limit detection; structured empty-body cases compared with the model in Coq",
